@@ -589,7 +589,7 @@ FMT = '<sym>'
 
 
 def is_symbolic(v, d=0):
-    if isinstance(v, (SBool, SInt, SChoice, LocalFn, BoundMethod, BuiltinMethod) + HEAP):
+    if isinstance(v, (SBool, SInt, SChoice, LocalFn, BoundMethod, BuiltinMethod, WeakRefModel) + HEAP):
         return True
     if d < 3 and isinstance(v, (tuple, list)):
         return any(is_symbolic(x, d + 1) for x in v)
@@ -1283,7 +1283,11 @@ class Ctx:
                 self.vm.class_shadow[key] = d
                 return d
             return a
-        return getattr(o, name)
+        try:
+            return getattr(o, name)
+        except AttributeError as ex:
+            self.raise_(True, ex)          # e.g. a str method looked up on an int label: the code under test raises
+            return None
 
     def class_attr(self, classes, name, obj):
         for c in classes:
@@ -1638,6 +1642,8 @@ class Ctx:
             return res
         if isinstance(fn, ObjectNew):
             return MObj(args[0])
+        if isinstance(fn, WeakRefModel):
+            return fn.obj
         if isinstance(fn, BoundMethod):
             return self.call(fn.fn, [fn.obj] + list(args), kwargs)
         if isinstance(fn, BuiltinMethod):
@@ -1817,6 +1823,26 @@ def builtin_method(ctx, o, n, args, kwargs):
         if n == '__iter__':
             return SetIter(o.bits, o.keys_sorted())
     if isinstance(o, MDict):
+        if n == 'get':
+            k = args[0]
+            dflt = args[1] if len(args) > 1 else None
+            res = UNDEF
+            for (gk, ka) in reversed(alts_of(k)):
+                pres = o.present.get(ka, False)
+                v = merge(pres, o.vals[ka], dflt) if pres is not False else dflt
+                res = merge(gk, v, res)
+            return None if res is UNDEF else res
+        if n == 'setdefault':
+            k = args[0]
+            dflt = args[1] if len(args) > 1 else None
+            res = UNDEF
+            for (gk, ka) in reversed(alts_of(k)):
+                pres = o.present.get(ka, False)
+                sub = ctx.sub(b_and(gk, b_not(pres)))
+                if sub.g is not False:
+                    sub.setitem(o, ka, dflt)
+                res = merge(gk, o.vals[ka], res)
+            return None if res is UNDEF else res
         if n == 'keys':
             return KeysView(o)
         if n == 'items':
@@ -1849,7 +1875,7 @@ def m_set(ctx, it=None):
     return s
 
 
-def m_dict(ctx):
+def m_dict(ctx, *a):
     return MDict()
 
 
@@ -2050,5 +2076,15 @@ def m_tuple(ctx, it=()):
     return tuple(v for _, v in plan)
 
 
-MODELS = {any: m_any, all: m_all, bool: m_bool, max: m_max, tuple: m_tuple, frozenset: m_set, weakref.WeakSet: m_set, id: m_id, set: m_set, dict: m_dict, list: m_list, len: m_len, iter: m_iter, next: m_next, min: m_min,
+class WeakRefModel:
+    """weakref.ref(o): the evaluator's heap never collects, so the referent is always alive (collection is outside the model)"""
+    def __init__(self, obj):
+        self.obj = obj
+
+
+def m_weakref_ref(ctx, o, callback=None):
+    return WeakRefModel(o)
+
+
+MODELS = {weakref.ref: m_weakref_ref, weakref.WeakValueDictionary: m_dict, weakref.WeakKeyDictionary: m_dict, any: m_any, all: m_all, bool: m_bool, max: m_max, tuple: m_tuple, frozenset: m_set, weakref.WeakSet: m_set, id: m_id, set: m_set, dict: m_dict, list: m_list, len: m_len, iter: m_iter, next: m_next, min: m_min,
           isinstance: m_isinstance, super: m_super, range: m_range, sum: m_sum, str: m_str, sorted: m_sorted}
